@@ -95,3 +95,170 @@ def str_getitem(ctx, s, idx):
 def install_strings(I):
     I.models['len.fallback'] = str_len
     I.models['str.getitem'] = str_getitem
+
+
+# ------------------------------------------------------------------------------------------------
+# opaque calls: library / callee functions as uninterpreted, effect-recording functions (call-trace contracts)
+from .values import Opaque, Ref, SymOpt as _SymOpt, Closure, Builtin, ModuleVal
+from fractions import Fraction
+import z3 as _z3
+
+ObjS = _z3.DeclareSort('Obj')
+
+
+def to_obj(I, v):
+    """Any engine value as a term of the universal sort Obj (injections are uninterpreted functions)."""
+    reg = I.reg
+    if isinstance(v, Opaque):
+        if v.term.sort() == ObjS:
+            return v.term
+        return reg.ufunc('inj_' + str(v.term.sort()), v.term.sort(), ObjS)(v.term)
+    if v is None:
+        return _z3.Const('py_None', ObjS)
+    if isinstance(v, bool):
+        return _z3.Const('py_%s' % v, ObjS)
+    if isinstance(v, (int, Fraction, str, Sym)):
+        e = to_z3(v)
+        return reg.ufunc('inj_' + str(e.sort()), e.sort(), ObjS)(e)
+    if isinstance(v, _SymOpt):
+        return _z3.If(v.is_none, _z3.Const('py_None', ObjS), to_obj(I, v.val))
+    if isinstance(v, (tuple, list)):
+        if len(v) == 0:
+            return _z3.Const('py_empty_%s' % type(v).__name__, ObjS)
+        f = reg.ufunc('mk_%s_%d' % ('tuple' if isinstance(v, tuple) else 'list', len(v)), *([ObjS] * len(v) + [ObjS]))
+        return f(*[to_obj(I, x) for x in v])
+    if isinstance(v, Ref):
+        ver = I.state.heap[v.oid].get('__version__')
+        if ver is not None:
+            return ver
+        return _z3.Const('ref_%d' % v.oid, ObjS)
+    if isinstance(v, dict):
+        items = sorted(v.items(), key=lambda kv: repr(kv[0]))
+        f = reg.ufunc('mk_dict_' + '_'.join(str(k) for k, _ in items), *([ObjS] * len(items) + [ObjS]))
+        return f(*[to_obj(I, x) for _, x in items]) if items else _z3.Const('py_empty_dict', ObjS)
+    if isinstance(v, SymSeq):
+        f = reg.ufunc('seq_obj_%d' % len(v.cols), *([_z3.IntSort()] + [c.sort() for c in v.cols] + [ObjS]))
+        return f(v.length, *v.cols)
+    if isinstance(v, (Closure, Builtin, ModuleVal)):
+        return _z3.Const('fn_' + getattr(v, 'qualname', getattr(v, 'name', 'x')), ObjS)
+    raise OutOfSubset("cannot pass %r to an opaque call" % (v,))
+
+
+def opaque_call(I, name, args, kwargs, record=True):
+    targs = [to_obj(I, a) for a in args]
+    kws = sorted(kwargs.items())
+    fname = 'call_' + name + (('__' + '_'.join(k for k, _ in kws)) if kws else '') + '_%d' % len(targs)
+    f = I.reg.ufunc(fname, *([ObjS] * (len(targs) + len(kws)) + [ObjS]))
+    term = f(*(targs + [to_obj(I, v) for _, v in kws]))
+    if record:
+        I.effects.append((name, tuple(targs), tuple((k, to_obj(I, v)) for k, v in kws), term))
+    return Opaque(term, name)
+
+
+def install_opaque(I, names, record=True):
+    """Each dotted library name / repo qualname in `names` becomes an uninterpreted, effect-recording function."""
+    for n in names:
+        I.models[n] = (lambda ctx, args, kwargs, n=n: opaque_call(I, n, args, kwargs, record))
+
+
+def install_opaque_algebra(I):
+    """Arithmetic, subscripts, len, attributes and method calls on Opaque values as uninterpreted functions."""
+    def binop(ctx, op, a, b):
+        if isinstance(a, Opaque) or isinstance(b, Opaque):
+            f = I.reg.ufunc('op_' + op, ObjS, ObjS, ObjS)
+            return Opaque(f(to_obj(I, a), to_obj(I, b)), 'op_' + op)
+        raise OutOfSubset("binary %s on %r and %r" % (op, type(a).__name__, type(b).__name__))
+
+    def getitem(ctx, cont, idx):
+        def conv(ix):
+            if ix[0] == 'index':
+                return to_obj(I, ix[1])
+            if ix[0] == 'slice':
+                f = I.reg.ufunc('mk_slice', ObjS, ObjS, ObjS, ObjS)
+                return f(*[to_obj(I, x) for x in ix[1:]])
+            f = I.reg.ufunc('mk_index_tuple_%d' % len(ix[1]), *([ObjS] * len(ix[1]) + [ObjS]))
+            return f(*[conv(x) for x in ix[1]])
+        f = I.reg.ufunc('getitem', ObjS, ObjS, ObjS)
+        return Opaque(f(cont.term if cont.term.sort() == ObjS else to_obj(I, cont), conv(idx)), 'getitem')
+
+    def length(ctx, v):
+        if isinstance(v, Opaque):
+            f = I.reg.ufunc('len_obj', ObjS, _z3.IntSort())
+            I.assume(f(to_obj(I, v)) >= 0)
+            return Sym(f(to_obj(I, v)))
+        return str_len(ctx, v)
+
+    def getattr_(ctx, obj, name):
+        f = I.reg.ufunc('attr_' + name, ObjS, ObjS)
+        return Opaque(f(to_obj(I, obj)), 'attr_' + name)
+
+    def method(ctx, recv, name, args, kwargs, f):
+        return opaque_call(I, 'm_' + name, [recv] + list(args), kwargs, record=False)
+
+    I.models['opaque.method'] = method
+    I.models['binop.fallback'] = binop
+    I.models['getitem:Opaque'] = getitem
+    I.models['len.fallback'] = length
+    I.models['opaque.getattr'] = getattr_
+
+
+# ------------------------------------------------------------------------------------------------
+# symbolic dict whose values are lists:  dom[k], cnt[k], item[k][j]
+class SymDictOfLists:
+    def __init__(self, dom, cnt, item, ksort, esort):
+        self.dom, self.cnt, self.item, self.ksort, self.esort = dom, cnt, item, ksort, esort
+
+    def named(self, I, base):
+        """Fresh array constants for If/Store terms so that they can occur in patterns."""
+        if all(_z3.is_const(x) for x in (self.dom, self.cnt, self.item)):
+            return self
+        out = SymDictOfLists.fresh(I, self.ksort, self.esort, base)
+        I.assume(out.dom == self.dom)
+        I.assume(out.cnt == self.cnt)
+        I.assume(out.item == self.item)
+        return out
+
+    @staticmethod
+    def empty(ksort, esort, name='d'):
+        IntS = _z3.IntSort()
+        return SymDictOfLists(_z3.K(ksort, _z3.BoolVal(False)), _z3.K(ksort, _z3.IntVal(0)),
+                              _z3.K(ksort, _z3.K(IntS, _z3.Const(name + '_nil', esort))), ksort, esort)
+
+    @staticmethod
+    def fresh(I, ksort, esort, name='d'):
+        IntS = _z3.IntSort()
+        return SymDictOfLists(_z3.Array(I.reg.fresh(name + '_dom'), ksort, _z3.BoolSort()), _z3.Array(I.reg.fresh(name + '_cnt'), ksort, IntS),
+                              _z3.Array(I.reg.fresh(name + '_item'), ksort, _z3.ArraySort(IntS, esort)), ksort, esort)
+
+
+def install_dict_of_lists(I):
+    def contains(ctx, cont, x):
+        if isinstance(cont, SymDictOfLists):
+            return _z3.Select(cont.dom, to_z3(x, sort=cont.ksort))
+        raise OutOfSubset("membership in %r" % (cont,))
+
+    def getitem(ctx, cont, idx):
+        if idx[0] != 'index':
+            raise OutOfSubset("dict slice")
+        k = to_z3(idx[1], sort=cont.ksort)
+        I.oblige("%s/safety/dict-key-present" % ctx.speckey, _z3.Select(cont.dom, k), 'safety')
+        return SymSeq(_z3.Select(cont.cnt, k), [_z3.Select(cont.item, k)], None, 'list', 'dictlist')
+
+    def setitem(ctx, cont, idx, v):
+        if idx[0] != 'index':
+            raise OutOfSubset("dict slice assignment")
+        k = to_z3(idx[1], sort=cont.ksort)
+        if isinstance(v, list):
+            arr = _z3.Select(cont.item, k)
+            for j, x in enumerate(v):
+                arr = _z3.Store(arr, j, to_z3(x, sort=cont.esort))
+            n = _z3.IntVal(len(v))
+        elif isinstance(v, SymSeq) and v.width is None:
+            arr, n = v.cols[0], v.length
+        else:
+            raise OutOfSubset("dict value %r" % (v,))
+        return SymDictOfLists(_z3.Store(cont.dom, k, _z3.BoolVal(True)), _z3.Store(cont.cnt, k, n), _z3.Store(cont.item, k, arr),
+                              cont.ksort, cont.esort)
+    I.models['contains.fallback'] = contains
+    I.models['getitem:SymDictOfLists'] = getitem
+    I.models['setitem:SymDictOfLists'] = setitem
